@@ -156,6 +156,38 @@ def gen_huge(rng, cfg):
     return cfg_name(cfg) + " " + " ".join(ops)
 
 
+def gen_deep_bulk(rng, cfg, levels):
+    """bulk_load just above leaf*(inner+1)^(levels-1) entries, i.e. a tree with `levels` inner levels (3 and 4 for the
+    small capacity pairs), then verify() (after every op anyway), lookups at the boundaries of the level-1 and level-2
+    subtrees, a few inserts / erases there and a full iteration."""
+    kind, gt, leaf, inner, _b = cfg
+    dup, ismap = DUP[kind], ISMAP[kind]
+    base = leaf * (inner + 1) ** (levels - 1)
+    n = base + rng.choice([1, 2, rng.range(3, 30), rng.range(1, base // 3 + 1)])
+    ks = [2 * t + (rng.below(2) if not dup else 0) - (t % 3 == 0 and dup) for t in range(n)]
+    ks = [max(0, k) for k in ks]
+    ks.sort()
+    if gt:
+        ks.reverse()
+    items = [(k, (t + 1) if ismap else 0) for t, k in enumerate(ks)]
+    ops = ["B,0,%d" % n + "".join(",%d,%d" % x for x in items), "T,0"]
+    marks = [leaf * (inner + 1) ** e * m for e in (1, 2) for m in range(1, 6)]
+    for m in marks:
+        if m < n:
+            k = ks[m - 1 if rng.chance(1, 2) else m]
+            ops.append("%s,0,%d" % (rng.choice(["L", "Uc", "R", "F", "C", "Lc", "U"]), k))
+    d = n + 1
+    for _ in range(8):
+        m = rng.choice([x for x in marks if x < n] or [n // 2])
+        k = ks[min(n - 1, m + rng.range(-1, 1))]
+        d += 1
+        ops.append("I,0,%d,%d" % (k + rng.range(0, 1), d if ismap else 0))
+        ops.append("%s,0,%d" % (rng.choice(["E1", "EK"]), ks[min(n - 1, m + rng.range(-2, 2))]))
+        ops.append("%s,0,%d" % (rng.choice(["L", "U", "Rc"]), k))
+    ops.append("T,0")
+    return cfg_name(cfg) + " " + " ".join(ops)
+
+
 ALIAS_PROBE = r"""
 #include <tlx/container/btree_multimap.hpp>
 #include <tlx/container/btree_multiset.hpp>
@@ -528,6 +560,14 @@ def main(pid):
             big = cfg[2] * cfg[3] > 90
             nops = rng.range(20, 70) if not big else rng.range(60, 160)
             cases.append(gen_case(rng, cfg, nops, open_modes))
+        # bulk loads that need 3 and 4 inner levels (the level loop of bulk_load beyond level 1) for the small pairs
+        small = [c for c in normal if c[2] * (c[3] + 1) ** 2 <= 200 and c[0] != "dms"]
+        for t in range(24 if ck.thorough() else 6):
+            if small:
+                cfg = small[t % len(small)]
+                cases.append(gen_deep_bulk(rng, cfg, 3 if (t // len(small)) % 2 == 0 or cfg[2] * (cfg[3] + 1) ** 3 > 800 else 4))
+        for cfg in [c for c in normal if c[2:4] == (8, 8)][:1]:
+            cases.append(gen_deep_bulk(rng, cfg, 3))
         for cfg in cfgs:
             if cfg in HUGE_CFGS:
                 for _ in range(2 if ck.thorough() else 1):
